@@ -24,6 +24,8 @@ ap.add_argument("--confirm", default="/tmp/wt/confirm")
 ap.add_argument("--also", default="", help="other properties whose checks should be run against the patch, comma separated")
 ap.add_argument("--manual-json", default=None)
 ap.add_argument("--note", default="")
+ap.add_argument("--round", default="1")
+ap.add_argument("--at-delivery", default="reported", help="verdict of the checks as they were when the seed was delivered")
 ap.add_argument("--as", dest="as_k", default=None, help="index to store the seed under (default: k)")
 a = ap.parse_args()
 src = a.src or f"/tmp/wt/out/{a.prop}"
@@ -79,6 +81,8 @@ meta = {
     "check_verdicts": verdicts,
     "reported_by_rules": detected,
     "note": a.note,
+    "round": a.round,
+    "at_delivery": a.at_delivery,
 }
 json.dump(meta, open(f"{dst}/meta.json", "w"), indent=1)
 print(dst, "kept;", "detected by", detected if detected else "NO RULE")
